@@ -113,7 +113,7 @@ func safeNext(s cron.Schedule, t time.Time) (r time.Time, hung bool, panicked st
 	select {
 	case v := <-ch:
 		return v.r, false, v.p
-	case <-time.After(5 * time.Second):
+	case <-time.After(3 * time.Second):
 		hangs++
 		return time.Time{}, true, ""
 	}
